@@ -100,6 +100,26 @@ def compare(data, exp):
                                                                               H.G.NPTYPE[t], H._short(b''.join(vals))))
                 if not got[1] and got[0] != H.G.NPTYPE[t]:
                     return ('dtype', '%s (%s): empty channel read as %s, wrote %s' % (ch.path, kind, got[0], H.G.NPTYPE[t]))
+    # the same file opened lazily: full read, last element and a tail window of every channel
+    r = H.guarded(lambda: H.TdmsFile.open(io.BytesIO(data), raw_timestamps=True))
+    if r[0] != 'ok':
+        return ('read-raised', 'opening the written file raised %s: %s' % (r[1], r[2]))
+    lz = r[1]
+    try:
+        for gname, chans in exp['order'].items():
+            for cname in chans:
+                ech, lch = groups[gname][cname], lz[gname][cname]
+                n = len(ech)
+                full = H.norm_array(ech[:])
+                rr = H.guarded(lambda: (H.norm_array(lch[:]), H.norm_scalar(lch[n - 1]) if n else None,
+                                        H.norm_array(lch.read_data(max(n - 2, 0), 2)) if n else None))
+                if rr[0] != 'ok':
+                    return ('lazy-raised', 'lazy read of %s raised %s: %s' % (lch.path, rr[1], rr[2]))
+                lf, last, tail = rr[1]
+                if lf[1:] != full[1:] or (n and (last != H.norm_scalar(ech[n - 1]) or tail[1:] != H.norm_array(ech[max(n - 2, 0):n])[1:])):
+                    return ('lazy-differs', 'lazy read of %s differs from the eager read of the written file' % lch.path)
+    finally:
+        lz.close()
     # properties: values through the reader, type codes through the independent parser
     try:
         dec = P.decode(data, strict=False)
